@@ -1510,6 +1510,79 @@ M("b6-app-sweep-worklist-from-cache", ["C13", "C10"], S, WORK_OLD,
   "the work list is filled from the object cache")
 
 
+# ---------------------------------------------------------------- batch 7 / round 6
+M("b7-server-count-sent-to-clients", ["C06"], S,
+  '''    def get_welcome(self):
+        return self._welcome''',
+  '''    def get_welcome(self):
+        busy = self._db.execute("SELECT COUNT(*) FROM `mailboxes`").fetchone()
+        return dict(self._welcome, busy=busy)''',
+  ["R06.server"], "a server-wide read of per-app rows that reaches a frame")
+B("b7-server-count-logged", ["C06", "C11", "C18"], S,
+  '''    def dump_stats(self, now, rebooted):
+        if not self._usage_db:
+            return''',
+  '''    def dump_stats(self, now, rebooted):
+        log.msg("mailboxes in use", self._db.execute(
+            "SELECT COUNT(*) FROM `mailboxes`").fetchone())
+        if not self._usage_db:
+            return''',
+  "operator statistics: the result reaches the log only")
+M("b7-open-counter-refuses", ["C11"], S,
+  '''        self._add_mailbox(mailbox_id, False, side, when) # ensure row exists
+        db = self._db''',
+  '''        self._add_mailbox(mailbox_id, False, side, when) # ensure row exists
+        self._mailboxes_opened = getattr(self, "_mailboxes_opened", 0) + 1
+        if self._mailboxes_opened > 100000:
+            raise CrowdedError("too busy")
+        db = self._db''',
+  ["R11.inv"], "a process-lifetime counter that decides an answer")
+
+M("d11-text-check-removed", ["C17"], W,
+  '''            try:
+                # JSON can smuggle in lone surrogates ("\\\\ud800"), which are
+                # not text: neither UTF-8 nor SQLite can store them
+                json.dumps(msg, ensure_ascii=False).encode("utf-8")
+            except UnicodeEncodeError:
+                raise Error("strings must be well-formed unicode")
+''',
+  '''''',
+  ["R17.text"], "the repaired defect D11 returns")
+M("d11-text-check-lenient", ["C17"], W,
+  '''                json.dumps(msg, ensure_ascii=False).encode("utf-8")''',
+  '''                json.dumps(msg, ensure_ascii=False).encode("utf-8", "replace")''',
+  ["R17.text"], "errors='replace' never raises: nothing is checked")
+M("d11-text-check-after-dispatch", ["C17"], W,
+  '''            self.send("ack", id=msg.get("id"))
+            try:
+                # JSON can smuggle in lone surrogates ("\\\\ud800"), which are
+                # not text: neither UTF-8 nor SQLite can store them
+                json.dumps(msg, ensure_ascii=False).encode("utf-8")
+            except UnicodeEncodeError:
+                raise Error("strings must be well-formed unicode")
+
+            mtype = msg["type"]
+            if mtype == "ping":
+                return self.handle_ping(msg)
+            if mtype == "bind":
+                return self.handle_bind(msg, server_rx)
+''',
+  '''            self.send("ack", id=msg.get("id"))
+
+            mtype = msg["type"]
+            if mtype == "ping":
+                return self.handle_ping(msg)
+            if mtype == "bind":
+                return self.handle_bind(msg, server_rx)
+            try:
+                # JSON can smuggle in lone surrogates ("\\\\ud800"), which are
+                # not text: neither UTF-8 nor SQLite can store them
+                json.dumps(msg, ensure_ascii=False).encode("utf-8")
+            except UnicodeEncodeError:
+                raise Error("strings must be well-formed unicode")
+''',
+  ["R17.text"], "bind stores appid / side before the check")
+
 def apply_mutant(repo_root, m, base_texts=None):
     """-> overrides dict or None when the anchor text is gone"""
     edits = [(m["path"], m["old"], m["new"])] + EXTRA.get(m["id"], [])
